@@ -109,6 +109,8 @@ NOTES = {
              as_delivered="caught by the C18 check (COND-PARITY: the loop around Wait contains no test of r.state against Shutdown that leaves the loop)", strengthened="none needed (while looking at this wait, its missing wake-up on an idle cluster became D30)"),
  "C20-3": dict(change="start(): transport.Run() moved before the three Register…Handler calls", needs="an RPC dispatched while Start/Restart is still registering handlers (nil handler call / unsynchronised write vs read of the handler fields)",
              as_delivered="caught by the C20 check (LOCKSET: handler field written without transport.mu and not ordered before Transport.Run)", strengthened="none needed"),
+ "C17-3": dict(change="becomeLeader builds the operation manager (and so the leader's lease) with options.electionTimeout instead of options.leaseDuration", needs="heartbeat ack delayed within the allowed bound, leader then partitioned, another node elected in the window between the voter's promise and the lease's end, lease read on the old leader",
+             as_delivered="MISSED: nothing tied the duration a lease is extended by to the configured option", strengthened="new rule LEASE-DURATION (C17): every lease is created with options.leaseDuration, plumbed unchanged into lease.duration, and renew is expiration := now + duration; no other writer"),
  "C20": dict(change="shared (*LogEntry).toProto helper makes the wire converter read entry.Offset (unlocked) while Compact rewrites it", needs="AppendEntries request in flight (converted with the mutex released) while the node compacts its log; visible only under -race",
              as_delivered="MISSED: LOCKSET guards node state, not the fields of shared log entries (and the tables corpus had filed 'send Offset both ways' as benign)", strengthened="OFFSET-OWNER (C20): LogEntry.Offset may be accessed only by code that runs inside the bundled log; the benign case was reclassified as a must-fire mutant"),
 }
